@@ -180,7 +180,7 @@ pub fn gen_api_plan(prop: Prop, seed: u64, tier: Tier, index: u64, batch_seed: u
         "harness": "api",
         "pending_permille": *srng.pick(&[0u32, 0, 10, 50]),
         "spurious_permille": *srng.pick(&[0u32, 0, 5, 20]),
-        "sched": if srng.chance(1, 2) { "random" } else { "pct" },
+        "sched": *srng.pick(&["random", "random", "pct", "pct", "sticky"]),
         "pct_depth": srng.range(1, 5),
         "max_steps": 60000,
         "known_avoid": known_avoid,
